@@ -85,7 +85,7 @@ ArriveCore(q, keys, names, fail, failmay, ord) ==
   /\ q \notin DOMAIN rq
   /\ ord \in {"sort", "head", "none"}
   /\ rq' = (q :> [st |-> "arrived", inst |-> -1, keys |-> keys, names |-> names, fail |-> fail, failmay |-> failmay,
-                  ord |-> ord, first |-> 0,
+                  ord |-> ord, first |-> 0, snap |-> {},
                   lo |-> done, ran |-> <<>>, wasCleared |-> cleared]) @@ rq
   /\ UNCHANGED <<pmin, pmax, free, holder, transit, dc, cur, cleared, inst, vers, done, pend, model, upq, fin>>
 
@@ -101,12 +101,21 @@ PopCore(q, i, n) ==
   /\ free' = free \ {i}
   /\ holder' = [holder EXCEPT ![i] = q]
   /\ dc' = [dc EXCEPT ![i] = [k \in rq[q].keys |-> q] @@ @]
-  /\ rq' = [rq EXCEPT ![q].st = "holding", ![q].inst = i]
+  \* i leaves the list: it is no longer "free ever since" any waiter's last look (see SpinCore)
+  /\ rq' = [p \in DOMAIN rq |-> IF p = q THEN [rq[p] EXCEPT !.st = "holding", !.inst = i, !.snap = {}]
+                                          ELSE [rq[p] EXCEPT !.snap = @ \ {i}]]
   /\ UNCHANGED <<pmin, pmax, transit, cur, cleared, inst, vers, done, pend, model, upq, fin>>
 
-\* hook "spin": a request found nothing free and tries again (always allowed:
-\* the emptiness test may be stale)
-SpinCore == UNCHANGED pvars
+\* hook "spin": request q found nothing free and tries again.  The emptiness test may be stale, so a spin beside a
+\* free instance is legal - once: between two spins of the same request lies a complete look at both lists, so an
+\* instance that has been in its list ever since q's previous spin would have been taken ("waiters proceed").
+\* snap = the instances that were free at q's last logged spin and have not been popped since.
+SpinCore(q) ==
+  IF q \in DOMAIN rq /\ rq[q].st = "arrived"
+  THEN /\ rq[q].snap = {}
+       /\ rq' = [rq EXCEPT ![q].snap = free]
+       /\ UNCHANGED <<pmin, pmax, free, holder, transit, dc, cur, cleared, inst, vers, done, pend, model, upq, fin>>
+  ELSE UNCHANGED pvars
 
 \* a rule of request q read injected key `key` and found the object of request `val`
 PeekCore(q, key, val) ==
